@@ -71,9 +71,17 @@ def facts_dir(config="default", repo=None, quiet=False):
             if os.path.isdir(out):
                 shutil.rmtree(out)
             os.makedirs(out)
-            tmpbase = os.path.join(CACHE, "tmp")
-            os.makedirs(tmpbase, exist_ok=True)
-            tgt = tempfile.mkdtemp(dir=tmpbase)
+            # a per-configuration target directory keeps the (unwrapped) third-party dependencies compiled; the workspace
+            # members' fingerprints are deleted so that cargo re-runs the driver on every member (a warm target directory
+            # would otherwise skip the wrapper silently); that every member was re-analysed is asserted below
+            tgt = os.path.join(CACHE, "target", config)
+            os.makedirs(tgt, exist_ok=True)
+            for prof in os.listdir(tgt):
+                fp = os.path.join(tgt, prof, ".fingerprint")
+                if os.path.isdir(fp):
+                    for ent in os.listdir(fp):
+                        if ent.rsplit("-", 1)[0] in CRATES:
+                            shutil.rmtree(os.path.join(fp, ent), ignore_errors=True)
             cfg = CONFIGS[config]
             env = dict(os.environ)
             env.update({
@@ -86,10 +94,13 @@ def facts_dir(config="default", repo=None, quiet=False):
             })
             env.pop("RUSTC_WRAPPER", None)
             cmd = ["cargo", "+nightly", "check", "--offline", "--workspace"] + cfg["cargo"]
-            try:
-                r = subprocess.run(cmd, cwd=repo, env=env, stdout=subprocess.PIPE, stderr=subprocess.STDOUT, text=True)
-            finally:
+            r = subprocess.run(cmd, cwd=repo, env=env, stdout=subprocess.PIPE, stderr=subprocess.STDOUT, text=True)
+            if r.returncode != 0 or any(not os.path.exists(os.path.join(out, c + ".json")) for c in CRATES):
+                # fall back to a cold build once (a corrupted or stale shared target directory must never decide a verdict)
                 shutil.rmtree(tgt, ignore_errors=True)
+                shutil.rmtree(out, ignore_errors=True)
+                os.makedirs(out)
+                r = subprocess.run(cmd, cwd=repo, env=env, stdout=subprocess.PIPE, stderr=subprocess.STDOUT, text=True)
             info["extract_s"] = round(time.time() - t0, 1)
             if r.returncode != 0:
                 shutil.rmtree(out, ignore_errors=True)
